@@ -17,11 +17,13 @@ import (
 	"sort"
 	"strconv"
 	"strings"
+	"sync"
 	"syscall"
 	"time"
 )
 
 type ufsFid struct {
+	sync.Mutex // a client may have several requests on the same fid in flight
 	path       string
 	file       *os.File
 	dirs       []os.FileInfo
@@ -272,6 +274,8 @@ func (*Ufs) FidDestroy(sfid *SrvFid) {
 	}
 
 	fid = sfid.Aux.(*ufsFid)
+	fid.Lock()
+	defer fid.Unlock()
 	if fid.file != nil {
 		_ = fid.file.Close()
 	}
@@ -309,6 +313,8 @@ func (*Ufs) Walk(req *SrvReq) {
 		return
 	}
 
+	fid.Lock()
+	defer fid.Unlock()
 	tc := req.Tc
 
 	err := fid.stat()
@@ -317,11 +323,11 @@ func (*Ufs) Walk(req *SrvReq) {
 		return
 	}
 
-	if req.Newfid.Aux == nil {
-		req.Newfid.Aux = new(ufsFid)
+	nfid := fid
+	if req.Newfid != req.Fid {
+		nfid = new(ufsFid)
 	}
 
-	nfid := req.Newfid.Aux.(*ufsFid)
 	wqids := make([]Qid, len(tc.Wname))
 	path := fid.path
 	i := 0
@@ -342,6 +348,9 @@ func (*Ufs) Walk(req *SrvReq) {
 	}
 
 	nfid.path = path
+	if req.Newfid.Aux == nil {
+		req.Newfid.Aux = nfid
+	}
 	req.RespondRwalk(wqids[0:i])
 }
 
@@ -351,6 +360,8 @@ func (*Ufs) Open(req *SrvReq) {
 		return
 	}
 
+	fid.Lock()
+	defer fid.Unlock()
 	tc := req.Tc
 	err := fid.stat()
 	if err != nil {
@@ -374,6 +385,8 @@ func (*Ufs) Create(req *SrvReq) {
 		return
 	}
 
+	fid.Lock()
+	defer fid.Unlock()
 	tc := req.Tc
 	err := fid.stat()
 	if err != nil {
@@ -405,7 +418,16 @@ func (*Ufs) Create(req *SrvReq) {
 		}
 
 		if ofidaux, ok := ofid.Aux.(*ufsFid); ok && ofidaux != nil {
-			e = os.Link(ofidaux.path, path)
+			opath := fid.path
+			if ofidaux != fid {
+				/* never hold two fids at once: two clients could link each other's */
+				fid.Unlock()
+				ofidaux.Lock()
+				opath = ofidaux.path
+				ofidaux.Unlock()
+				fid.Lock()
+			}
+			e = os.Link(opath, path)
 		} else {
 			e = Eunknownfid
 		}
@@ -455,6 +477,8 @@ func (*Ufs) Read(req *SrvReq) {
 		return
 	}
 
+	fid.Lock()
+	defer fid.Unlock()
 	tc := req.Tc
 	rc := req.Rc
 	err := fid.stat()
@@ -547,6 +571,8 @@ func (*Ufs) Write(req *SrvReq) {
 		return
 	}
 
+	fid.Lock()
+	defer fid.Unlock()
 	tc := req.Tc
 	err := fid.stat()
 	if err != nil {
@@ -571,6 +597,8 @@ func (*Ufs) Remove(req *SrvReq) {
 		return
 	}
 
+	fid.Lock()
+	defer fid.Unlock()
 	err := fid.stat()
 	if err != nil {
 		req.RespondError(err)
@@ -592,6 +620,8 @@ func (*Ufs) Stat(req *SrvReq) {
 		return
 	}
 
+	fid.Lock()
+	defer fid.Unlock()
 	err := fid.stat()
 	if err != nil {
 		req.RespondError(err)
@@ -632,6 +662,8 @@ func (u *Ufs) Wstat(req *SrvReq) {
 		return
 	}
 
+	fid.Lock()
+	defer fid.Unlock()
 	err := fid.stat()
 	if err != nil {
 		req.RespondError(err)
